@@ -80,17 +80,25 @@ Fixpoint machine_rules (data : list Z) (globals : list value) (rules : list rule
       let pmg := fun g : nat => match local_of g pids 0 with Some i => e_pm en i | None => [] end in
       (match tyof [] 0 ir with
        | Some TBool =>
-           match run_condition data pmg (e_rules en) (e_globals en) machine_fuel ir with
-           | Some b => Bool.eqb b v
-           | None => false
-           end
+           if frag1 ir then
+             match run_condition data pmg (e_rules en) (e_globals en) machine_fuel ir with
+             | Some b => Bool.eqb b v
+             | None => false
+             end
+           else true
        | _ => true
        end) && machine_rules data globals t (tl pidss) (acc ++ [v])
   end.
 Definition machine_agrees (c : case) : bool := machine_rules (c_data c) (c_globals c) (c_rules c) (c_pids c) [].
-(* how many conditions of the case are in the fragment (reported by the check) *)
+(* which conditions of the case have their emitted code compared (the
+   fragment of Emit.v), and which of these are also run on the machine
+   (Emit.frag1, the part emit_correct is proved for) *)
 Definition in_fragment (c : case) : list bool :=
   map (fun rp => match tyof [] 0 (emitted_cond (snd rp) (r_cond (fst rp))) with Some TBool => true | _ => false end)
+      (combine (c_rules c) (c_pids c)).
+Definition in_proved (c : case) : list bool :=
+  map (fun rp => let e := emitted_cond (snd rp) (r_cond (fst rp)) in
+                 match tyof [] 0 e with Some TBool => frag1 e | _ => false end)
       (combine (c_rules c) (c_pids c)).
 
 (* Typing of identifiers, constant folding and slot allocation, exactly: the
